@@ -5,7 +5,9 @@ Correspondence (exact): `local_comp_graph`, `Graph.local_complementation`, `_coe
 `_solution_basis_finder`, `is_lc_equivalent` (both modes; the random draws are recorded from `np.random.randint` and handed
 to the model), `local_clifford_ops` (all 16 blocks, every run), `lc_graph_operations`, `find_lc_operations`,
 `converter_gate_list`/`lc_check` on graph and adjacency-matrix inputs are run on the real implementation and on the Lean
-model (`graph.lc`, `lc.system`, `lc.equiv`, `lc.ops`, `lc.seq`, `lc.find`, `lc.check`) and compared.
+model (`graph.lc`, `lc.system`, `lc.equiv`, `lc.ops`, `lc.seq`, `lc.find`, `lc.check`) and compared; `lc_check` on two tableaux
+(StabilizerTableau / CliffordTableau) is compared exactly with `lcCheckStates` (`lc.checkstates`: total gate list or error class), and
+`_is_valid_clifford` with `lc.valid`.
 
 Two versions of `is_lc_equivalent` are modelled: the one in the repository up to 70adac4 (`isLcEquivalent`: one linear system for
 the whole graph; known finding D14) and the repaired one (handoff/repairs/d14: `isLcEquivalentR`: components compared, then the
